@@ -18,6 +18,7 @@ RULE = ('inner texts = generated SELECTs + hostile literal/variable/number/paren
         '(CREATE MODEL|PREDICTOR|ANOMALY DETECTION MODEL, RETRAIN, FINETUNE, EVALUATE, CREATE VIEW (3 forms), CREATE JOB incl. IF query and '
         'multi-statement bodies, CREATE TRIGGER, native FROM db (query) plain and joined); non-trivial = inner text contains a string '
         'literal, variable, nested parentheses, comment or newline; distinct by (embedding, inner text)')
+RULE += "; also: unpaired outer parentheses, fully wrapped queries, multi-line literals with the statement's margin, comments glued to their neighbours"
 ASSUMPTIONS = ['"up to whitespace and comments": compared after an independent tokenizer drops both',
                'inner texts have balanced parentheses and contain only characters the mindsdb lexer knows']
 BUDGET = {'quick': (8, 240), 'thorough': (16, 1800)}
